@@ -202,6 +202,12 @@ func (c *Ctx) term(v ssa.Value, d int) string {
 			args = append(args, c.term(a, d+1))
 		}
 		if b, ok := x.Call.Value.(*ssa.Builtin); ok {
+			if b.Name() == "len" && len(x.Call.Args) == 1 {
+				// the length of a slice made here is the length it was made with
+				if ms, isMS := resolveLocal(x.Call.Args[0]).(*ssa.MakeSlice); isMS {
+					return c.term(ms.Len, d+1)
+				}
+			}
 			return b.Name() + "(" + strings.Join(args, ", ") + ")"
 		}
 		if sc := x.Call.StaticCallee(); sc != nil {
@@ -227,6 +233,21 @@ func (c *Ctx) term(v ssa.Value, d int) string {
 		if call, ok := x.Tuple.(*ssa.Call); ok && d < 8 {
 			if rv := c.helperResult(call, x.Index); rv != nil {
 				return c.term(rv, d+1)
+			}
+			if rvs := c.helperResults(call, x.Index); len(rvs) > 1 {
+				// several returns with different values: reads as the merge the inlined code would have
+				seen := map[string]bool{}
+				var alts []string
+				for _, rv := range rvs {
+					for _, p := range splitPhi(c.term(rv, d+2)) {
+						if !seen[p] {
+							seen[p] = true
+							alts = append(alts, p)
+						}
+					}
+				}
+				sort.Strings(alts)
+				return "phi(" + strings.Join(alts, " / ") + ")"
 			}
 		}
 		return c.term(x.Tuple, d+1) + "#" + fmt.Sprint(x.Index)
@@ -281,16 +302,27 @@ func (c *Ctx) term(v ssa.Value, d int) string {
 	case *ssa.Builtin:
 		return "builtin:" + x.Name()
 	case *ssa.Phi:
+		// a loop-carried value refers to itself: the reference back reads "↺" instead of being unrolled to the depth limit
+		if c.phiOn[x] {
+			return "↺"
+		}
+		if c.phiOn == nil {
+			c.phiOn = map[*ssa.Phi]bool{}
+		}
+		c.phiOn[x] = true
+		defer delete(c.phiOn, x)
 		var alts []string
 		seen := map[string]bool{}
 		for _, e := range x.Edges {
 			if e == v {
 				continue
 			}
-			p := c.term(e, d+2)
-			if !seen[p] {
-				seen[p] = true
-				alts = append(alts, p)
+			// a merge of merges reads as one merge
+			for _, p := range splitPhi(c.term(e, d+2)) {
+				if !seen[p] {
+					seen[p] = true
+					alts = append(alts, p)
+				}
 			}
 		}
 		if len(alts) == 1 {
@@ -812,24 +844,73 @@ func localCopyOf(al *ssa.Alloc) ssa.Value {
 // helperResult: result idx of a call of a new single-use helper, as a value of the helper's body, when every return of
 // the helper that does not hand back a zero value for it returns the same value there.
 func (c *Ctx) helperResult(call *ssa.Call, idx int) ssa.Value {
+	if rvs := c.helperResults(call, idx); len(rvs) == 1 {
+		return rvs[0]
+	}
+	return nil
+}
+
+// splitPhi: the alternatives of a term that is a merge as a whole ("phi(a / b)"), else the term itself.
+func splitPhi(t string) []string {
+	if !strings.HasPrefix(t, "phi(") || !strings.HasSuffix(t, ")") {
+		return []string{t}
+	}
+	body := t[4 : len(t)-1]
+	var out []string
+	depth, start := 0, 0
+	for i := 0; i < len(body); i++ {
+		switch body[i] {
+		case '(', '[', '{':
+			depth++
+		case ')', ']', '}':
+			depth--
+			if depth < 0 {
+				return []string{t} // "phi(a) op (b)": not a merge as a whole
+			}
+		case ' ':
+			if depth == 0 && strings.HasPrefix(body[i:], " / ") {
+				out = append(out, body[start:i])
+				start = i + 3
+				i += 2
+			}
+		}
+	}
+	out = append(out, body[start:])
+	return out
+}
+
+// helperResults: the distinct values a new single-use helper returns at a result position. A nil or zero constant counts
+// only when the helper has no status result (error or bool as its last result) that would mark that return as failing.
+func (c *Ctx) helperResults(call *ssa.Call, idx int) []ssa.Value {
 	g := call.Call.StaticCallee()
-	if g == nil || !c.isNew(g) || c.soleCall(g) != ssa.CallInstruction(call) {
+	if g == nil || !c.isNew(g) || c.soleCall(g) != ssa.CallInstruction(call) || g.Recover != nil {
 		return nil
 	}
-	var rv ssa.Value
+	res := g.Signature.Results()
+	status := false
+	if n := res.Len(); n > 0 {
+		lt := res.At(n - 1).Type()
+		if lt.String() == "error" {
+			status = true
+		} else if b, ok := lt.Underlying().(*types.Basic); ok && b.Kind() == types.Bool && n > 1 {
+			status = true
+		}
+	}
+	var out []ssa.Value
+	seen := map[ssa.Value]bool{}
 	for _, b := range g.Blocks {
 		r, ok := b.Instrs[len(b.Instrs)-1].(*ssa.Return)
 		if !ok || idx >= len(r.Results) || (b != g.Blocks[0] && len(b.Preds) == 0) {
 			continue
 		}
 		v := resolveLocal(r.Results[idx])
-		if k, isK := v.(*ssa.Const); isK && (k.Value == nil || k.IsNil()) {
-			continue // zero value on a failing return
+		if k, isK := v.(*ssa.Const); isK && (k.Value == nil || k.IsNil()) && status {
+			continue
 		}
-		if rv != nil && rv != v {
-			return nil
+		if !seen[v] {
+			seen[v] = true
+			out = append(out, v)
 		}
-		rv = v
 	}
-	return rv
+	return out
 }
